@@ -5,7 +5,8 @@
 From Coq Require Import Lia.
 From RecordUpdate Require Import RecordUpdate.
 From Model Require Import Base SeqNum Wire Conn PackEnv Frag.
-From Proofs Require Import WireP PackP C09P FragP.
+From Model Require Import Net.
+From Proofs Require Import WireP PackP C09P FragP NetP.
 Import RecordSetNotations.
 Open Scope Z_scope.
 
@@ -125,6 +126,32 @@ Proof.
 Qed.
 Print Assumptions C06_delay_refuted.
 
+(* ---- two endpoints (L2): nothing is fabricated ---- *)
+(* Net.v joins two Conn.v endpoints A and B: a joint history is any interleaving of A's events (sends,
+   ticks, receives, disconnects, settings) and B's; the network and the attacker are the choice of the
+   datagram each of B's receive events carries.  The only schedule hypothesis (wf_run) is what AES-GCM
+   provides: a datagram that B opens under the session key it holds is one of those A has emitted.  Loss,
+   duplication, reordering, delay and replay of A's datagrams, arbitrary datagrams B cannot open, and anything
+   at all while B holds no key or towards A, are allowed.  For unfragmented traffic (every payload A's
+   application sends fits one datagram): every payload handed to B's application is, byte for byte, a
+   payload that A's application passed to send() — from the initial state, through the handshake, for every
+   such history of any length. *)
+Theorem C06_delivered_was_sent : forall e vs,
+  wf_run e net0 vs ->
+  forall p, In p (dlvB (nrun e net0 vs)) -> In p (sentA (nrun e net0 vs)).
+Proof. exact delivered_was_sent. Qed.
+Print Assumptions C06_delivered_was_sent.
+
+(* the same from any joint state satisfying the invariant NI (e.g. an established session) *)
+Theorem C06_delivered_was_sent_from : forall e vs n,
+  NI n -> wf_run e n vs ->
+  forall p, In p (dlvB (nrun e n vs)) -> In p (sentA (nrun e n vs)).
+Proof.
+  intros e vs n H Hwf p Hp. pose proof (NI_run e vs n H Hwf) as [_ _ _ _ HD].
+  rewrite Forall_forall in HD. exact (HD p Hp).
+Qed.
+Print Assumptions C06_delivered_was_sent_from.
+
 (* ---- non-vacuity ---- *)
 (* MTU 512: a 1000-byte payload is cut into 440 + 440 + 120 *)
 Example C06_split_example :
@@ -140,3 +167,30 @@ Example C06_reassemble_example :
   timely (rstate0 3) (pre ++ [FMine 1 12 400])
   /\ c_incoming (fst (feed 5 frags (conn0 false) (pre ++ [FMine 1 12 400]))) = [(11, [x01; x02; x03])].
 Proof. split; [|vm_compute; reflexivity]. vm_compute. repeat split; intros; try discriminate; vm_compute; discriminate. Qed.
+
+(* the two-endpoint theorem is not vacuous: an established pair; A sends "AB", ticks (one sealed
+   datagram), B receives it twice (a replay) and hands "AB" to its application exactly once *)
+Definition ep_ex (server : bool) : conn :=
+  let c := conn0 server in
+  mkConn server (Some 7) CONNECTED [] [] [] [] [] [] [] [] 0 0 0 (c_bf_pkt c) (c_bf_msg c)
+         (c_out_timeout c) (c_temp_timeout c) (c_send_interval c) (c_ka_interval c)
+         1536000 (c_last_send c) (c_last_ka c) 0 0 0 0 0 0 [] 0 0 false 0.
+Definition net_ex : net := {| nA := ep_ex false; nB := ep_ex true; wAB := []; wBA := []; sentA := []; dlvB := [] |}.
+Definition env_ex6 : env := {| e_max_payload := 1434; e_max_frag := 1024; e_max_frags := 8192 |}.
+Definition evs_ex : list nev := [NA (ESend [x41; x42] RNone INone); NA (EClientTick 1536300 RxNone)].
+Definition dg_ex : dgram := hd {| d_hdr := Build_header true 0 0 0 APP 0 0 0; d_body := Bad |} (wAB (nrun env_ex6 net_ex evs_ex)).
+Definition evs_ex2 : list nev := evs_ex ++ [NB (ERecv 1536400 dg_ex []); NB (ERecv 1536500 dg_ex [])].
+
+Example C06_two_endpoints :
+  NI net_ex /\ wf_run env_ex6 net_ex evs_ex2
+  /\ sentA (nrun env_ex6 net_ex evs_ex2) = [[x41; x42]]
+  /\ dlvB (nrun env_ex6 net_ex evs_ex2) = [[x41; x42]].
+Proof.
+  split; [constructor; cbn; repeat (constructor; cbn)|].
+  split; [|split; vm_compute; reflexivity].
+  unfold evs_ex2, evs_ex. cbn [app wf_run wf_ev small_ev].
+  split; [exact I|]. split; [vm_compute; discriminate|].
+  split; [exact I|]. split; [exact I|].
+  split; [intros d ms Hd _ _; cbn [dgram_in] in Hd; assert (d = dg_ex) as -> by congruence; clear Hd; vm_compute; left; reflexivity|]. split; [exact I|].
+  split; [intros d ms Hd _ _; cbn [dgram_in] in Hd; assert (d = dg_ex) as -> by congruence; clear Hd; vm_compute; left; reflexivity|]. split; exact I.
+Qed.
